@@ -385,6 +385,23 @@ def match_known(prop, viol, kf):
     return None
 
 
+def complete_witness_passed(viol, k_obl):
+    """True when at least one Kani harness tied to the violated unit/function ran, every such harness is of kind `complete` and all of them were discharged."""
+    unit, fn = viol.get("unit"), viol.get("function", "")
+    tied = []
+    for G in registry.KANI_GROUPS.values():
+        for h in G["harnesses"]:
+            if unit in h.get("witness_units", []):
+                wf = h.get("witness_fns")
+                if wf and not any(w in fn for w in wf):
+                    continue
+                tied.append(h)
+    if not tied or any(h.get("kind", "complete") != "complete" for h in tied):
+        return False
+    ran = {o["obligation"].split("[")[0]: o for o in k_obl}
+    return all(("kani::" + h["name"]) in ran and ran["kani::" + h["name"]]["status"] == "discharged" for h in tied)
+
+
 def write_replay(prop, viol, witness):
     os.makedirs(os.path.join(VERIF, "replay", "out"), exist_ok=True)
     name = re.sub(r"[^A-Za-z0-9_.-]+", "_", viol["obligation"])
@@ -432,6 +449,10 @@ def run_property(prop, tier, seed):
                 undecided.append(f"{v['obligation']}: only proof-script hints/invariants fail and the witness harness found no counterexample (proof script no longer applies)")
             continue
         v["witness"] = w
+        if not w and not v["hint_only"] and complete_witness_passed(v, k_obl):
+            # a COMPLETE bit-precise Kani proof of the same function passed on this very tree: the deductive failure is a lost proof, not a violation
+            undecided.append(f"{v['obligation']}: the contract no longer verifies, but the complete Kani harness(es) of this function pass on the same tree (proof script no longer applies)")
+            continue
         final_viol.append(v)
     for v in k_viol:
         final_viol.append(v)
